@@ -22,3 +22,12 @@ claim("C02",
       "cases) to 9 method variants x 6 dispatchers and requires a real unit quaternion equal to an allowed output; ToQuat "
       "behaviours are replayed and their recorded traces validated by TraceAttitude.",
       "TLA+ Dcm2Quat/AttitudeMachine + TLC + exact replay, bigint mirror, trace validation", "DESIGN.md section 5, C02")
+claim("C10",
+      "Representations.tla models the conversion machine (rpy half-angle pairs -> quaternion -> angles, axis-angle about "
+      "integer-length axes -> quaternion/matrix -> axis-angle, Euler sequences -> ordered matrix product, integer powers) "
+      "in exact integers; TLC checks Denotes, RpyRoundTrip, AxangRoundTrip, PowerLaws, EulerProduct on 14.5k states and emits the "
+      "case table; the harness drives every route (7 rpy constructors, 4 angle extractors, axis-angle in both directions for "
+      "quaternions and matrices, log/exp, 14 exponents, DCM.log, all 39 axis sequences through rot_seq / DCM keyword "
+      "constructors) against the exact values, plus thin members (angles down to 2e-12 rad, pitch within 1e-6 of 90 deg) via the "
+      "bigint mirror. Tolerances follow the conditioning of the arccos-based formulas (stated in evidence).",
+      "TLA+ Representations + TLC + exact replay and bigint mirror", "DESIGN.md section 5, C10")
